@@ -34,19 +34,12 @@ def landscape(S, dims, cls='StokesLandscape', **extra):
     return o, ns
 
 
-F_INT32 = 'C17-int32-boundary'
+F_INT32 = 'C17-int32-boundary'        # fixed finding (9b8386d); its native witness is replayed on every run
 
 
-def size_class(S, ns, with_finding_case=False):
-    """maps have fewer than 2^63 pixels (assumption).  Main class: the int64 branch, or every dimension smaller than
-    2^31.  Finding class: the int32 branch with one dimension of exactly 2^31 pixels (so N = 2^31)."""
-    N = prod(ns)
-    S.assume(N <= 2 ** 63 - 1)
-    main = z3.Or(N - 1 > INT32_MAX, z3.And(*[n <= INT32_MAX for n in ns]))
-    case = S.choose(2) if with_finding_case else 0
-    S.assume(main if case == 0 else z3.Not(main))
-    S.inputs['int32_boundary'] = bool(case)
-    return case
+def size_class(S, ns):
+    """maps have fewer than 2^63 pixels (assumption)"""
+    S.assume(prod(ns) <= 2 ** 63 - 1)
 
 
 def closed_formula(ks, ns):
@@ -149,9 +142,9 @@ def build(ck):
         dims = 1 + S.choose(3)
         S.inputs['dims'] = dims
         o, ns = landscape(S, dims)
-        fcase = size_class(S, ns, with_finding_case=True)
-        fid = F_INT32 if fcase == 1 else None
-        hint = z3.And(*[ns[d] == (2 ** 31 if d == 0 else 1) for d in range(dims)]) if fcase == 1 else None
+        size_class(S, ns)
+        # where a dtype-boundary defect would show first (refutation hint only)
+        hint = z3.And(*[ns[d] == (2 ** 31 if d == 0 else 1) for d in range(dims)])
         cs = [S.real(f'c{d}') for d in range(dims)]
         out = S.call(S.I.getattr(o, 'pixel2index'), [PX.PtV(c, Ext('numpy.float64')) for c in cs])
         if not out.normal:
@@ -166,18 +159,19 @@ def build(ck):
         for d, k in enumerate(ks):
             S.inputs[f'k{d}'] = k
         valid, idx = closed_formula(ks, ns)
-        S.oblige('post', z3.Implies(valid, r.term == idx), finding=fid, hint=hint,
-                 tag=f'in-map-index-is-row-major-first-coordinate-fastest-{dims}d' + ('-int32-boundary' if fcase else ''))
+        S.oblige('post', z3.Implies(valid, r.term == idx), hint=hint,
+                 tag=f'in-map-index-is-row-major-first-coordinate-fastest-{dims}d')
         S.oblige('post', z3.Implies(z3.Not(valid), r.term == -1), tag=f'outside-the-map-in-any-dimension-gives-minus-one-{dims}d')
+        # "the index dtype is wide enough for N": the chosen dtype represents every index 0..N-1, and every comparison
+        # of the range test is exact for it (the Python int n_d converts to the dtype without wrap-around)
         N = prod(ns)
-        small = N - 1 <= INT32_MAX
-        is32 = isinstance(r.dtype, Ext) and r.dtype.path == 'numpy.int32'
-        is64 = isinstance(r.dtype, Ext) and r.dtype.path == 'numpy.int64'
-        S.oblige('post', bool(is32 or is64), tag='index-dtype-is-int32-or-int64')
-        if is32:
-            S.oblige('post', small, tag='int32-only-if-the-largest-index-fits')
-        if is64:
-            S.oblige('post', z3.Not(small), tag='int64-only-if-the-largest-index-does-not-fit-int32')
+        bits = PX.bits_of(r.dtype)
+        S.oblige('post', bits in (32, 64), tag='index-dtype-is-int32-or-int64')
+        if bits in (32, 64):
+            top = 2 ** (bits - 1) - 1
+            S.oblige('post', N - 1 <= top, hint=hint, tag=f'index-dtype-represents-every-index-0..N-1-{dims}d')
+            for d, n in enumerate(ns):
+                S.oblige('post', n <= top, hint=hint, tag=f'range-test-on-axis-{d}-is-exact-in-the-index-dtype-{dims}d')
     ck.explore(f'{LS}.StokesLandscape.pixel2index', pixel2index, T)
 
     def pixel2index_none(S):
